@@ -3,7 +3,7 @@
 # /repo, N at a time, using the driver's development mode (VERIF_REPO / VERIF_OUT). /repo's working tree, /verif/evidence
 # and /verif/replays are not touched. Failing cases are kept under work/seedreplays/ as candidate regression replays.
 #
-# usage: tools_regress.sh [-j N] [-s seed] [name ...]      (default: all of seeded/*)
+# usage: [CHK=<check id>] tools_regress.sh [-j N] [-s seed] [name ...]      (default: all of seeded/*; CHK runs another check than the change's own)
 cd /verif || exit 2
 N=4; SEED=1
 while getopts "j:s:" o; do case $o in j) N=$OPTARG;; s) SEED=$OPTARG;; esac; done
@@ -18,7 +18,7 @@ worker() {
   git -C /repo worktree add --detach -f $wt HEAD >/dev/null 2>&1 || { echo "worker $k: cannot create worktree"; return; }
   for name in "$@"; do
     p=/verif/seeded/$name/patch.diff
-    chk=$(python3 -c "import json;print(json.load(open('/verif/seeded/$name/meta.json'))['property'][:3])")
+    chk=${CHK:-$(python3 -c "import json;print(json.load(open('/verif/seeded/$name/meta.json'))['property'][:3])")}
     out=$base/w$k/out; rm -rf $out
     if ! git -C $wt apply $p 2>/dev/null; then echo "$name -> PATCH DOES NOT APPLY"; continue; fi
     r=$(VERIF_SEED=$SEED VERIF_REPO=$wt VERIF_OUT=$out ./check $chk 2>&1 | grep -E "^\[check\] (OK|violation|INCONCLUSIVE)|build of" | head -1 | cut -c1-220)
